@@ -3,7 +3,7 @@
 use std::{collections::BTreeMap, fmt::Debug};
 
 use serde::{de::DeserializeOwned, Deserialize, Serialize};
-use sonic_rs::{JsonValueMutTrait, JsonValueTrait, Value};
+use sonic_rs::{JsonContainerTrait, JsonValueMutTrait, JsonValueTrait, Value};
 
 use crate::{
     dump,
@@ -218,6 +218,22 @@ pub fn run_c19(out: &mut Out, tier: &str, seed: u64) {
         // c: a slightly different tree
         let mut c = rebuild(&a, &mut rng, false);
         perturb(&mut c, &mut rng);
+        // a2 / c2: objects of equal size whose only difference is the name of a null member
+        if let Some(o) = a.as_object() {
+            if let Some((k0, _)) = o.iter().next() {
+                let mut a2 = rebuild(&a, &mut rng, false);
+                let mut c2 = rebuild(&a, &mut rng, false);
+                let k0 = k0.to_string();
+                a2.as_object_mut().unwrap().insert(&k0, Value::new());
+                let co = c2.as_object_mut().unwrap();
+                co.remove(&k0);
+                co.insert(&format!("{k0}?"), Value::new());
+                let same = sorted_dump(&a2) == sorted_dump(&c2);
+                let (x, y) = (a2 == c2, c2 == a2);
+                let verdict = if x != y { format!("asymmetric: {x} / {y}") } else if x != same { format!("== is {x} but the trees are {}", if same { "the same" } else { "different" }) } else { "true".into() };
+                out.case("expect", &["equality: renamed null member", &hex(&doc)], &verdict, true);
+            }
+        }
         let ab = (a == b, b == a, a == a.clone(), b == b.clone());
         let same_c = sorted_dump(&a) == sorted_dump(&c);
         let ac = (a == c, c == a);
@@ -275,7 +291,6 @@ fn contains_f32(v: &SVal) -> bool {
 
 /// the same tree rebuilt through the mutation API (owned containers), members inserted in a shuffled order
 fn rebuild(v: &Value, rng: &mut Rng, shuffle: bool) -> Value {
-    use sonic_rs::JsonContainerTrait;
     if let Some(a) = v.as_array() {
         let mut out = sonic_rs::Array::new();
         for x in a.iter() {
@@ -311,9 +326,21 @@ fn perturb(v: &mut Value, rng: &mut Rng) {
             a.push(Value::from(1u64));
         }
     } else if let Some(o) = v.as_object_mut() {
-        match rng.below(3) {
+        match rng.below(5) {
             0 => {
                 o.insert(&"extra_member", Value::new());
+            }
+            1 | 2 => {
+                // same number of members, one key renamed (its value kept, or null on both sides)
+                let keys: Vec<String> = o.iter().map(|(k, _)| k.to_string()).collect();
+                if keys.is_empty() {
+                    o.insert(&"k", Value::new());
+                } else {
+                    let k = keys[rng.below(keys.len())].clone();
+                    let old = o.remove(&k).unwrap_or_default();
+                    let nk = format!("{k}_renamed");
+                    o.insert(&nk, if rng.chance(1, 2) { Value::new() } else { old });
+                }
             }
             _ => {
                 let keys: Vec<String> = o.iter().map(|(k, _)| k.to_string()).collect();
